@@ -5,6 +5,12 @@ import (
 	"github.com/mk6i/mkdb/storage"
 )
 
+// rowChecker is implemented by relation managers that can tell, without changing
+// anything, whether a row would be refused.
+type rowChecker interface {
+	CheckInsert(tableName string, cols []string, vals []interface{}) error
+}
+
 func EvaluateInsert(q sql.InsertStatement, rm RelationManager) (int, error) {
 	rm.StartTxn()
 	defer rm.EndTxn()
@@ -12,6 +18,15 @@ func EvaluateInsert(q sql.InsertStatement, rm RelationManager) (int, error) {
 	tbl := q.TableName
 	cols := q.InsertColumnsAndSource.InsertColumnList.ColumnNames
 	vals := q.InsertColumnsAndSource.QueryExpression.(sql.TableValueConstructor).TableValueConstructorList
+
+	// refuse the whole statement before its first row is stored if a row is invalid
+	if rc, ok := rm.(rowChecker); ok {
+		for _, tvc := range vals {
+			if err := rc.CheckInsert(tbl, cols, tvc.RowValueConstructorList); err != nil {
+				return 0, err
+			}
+		}
+	}
 
 	var batch storage.WALBatch
 
